@@ -22,6 +22,11 @@ CLAIMED = {
             "compared with the defining contraction; every unfolding/vec/matrix/slice view, wrapper shape/rank and factor-based "
             "norm is compared with the reference dense tensor; 15 kinds of invalid sets must raise. Sampled, small sizes.",
             "Trusted: numpy.einsum, explicit index-map unfolding.", "DESIGN.md §2 C03"),
+    "C04": ("runtime before/after monitor: dense reconstruction preserved + canonical-form predicates on real transforms",
+            "Seeded factorised tensors with the degenerate classes the statement names are pushed through each real transform; the "
+            "dense tensor is recomputed independently before and after and the advertised canonical form is checked entrywise. "
+            "Sampled (orders 2-4, sizes 1-5, ranks 1-4).",
+            "Trusted: numpy.einsum, numpy.linalg. cp_permute_factors alignment asserted only where the best matching is unique.", "DESIGN.md §2 C04"),
 }
 
 PENDING_REASON = "check not built yet in this session; see DESIGN.md §2 for the planned monitor"
